@@ -1,8 +1,8 @@
 #!/bin/bash
-# eval_seed.sh <property> <worktree> [tier] : confirm a seeded change (tests + demo with/without) in its scratch worktree, store it under
+# eval_seed.sh <property> <worktree> [tier] [seed-id] : confirm a seeded change (tests + demo with/without) in its scratch worktree, store it under
 # /verif/seeded/<property>/, apply it to /repo, run the property's check, undo.  Prints a one-line summary.
-P=$1; WT=$2; TIER=${3:-quick}
-OUT=/verif/seeded/$P; mkdir -p $OUT
+P=$1; WT=$2; TIER=${3:-quick}; SID=${4:-$P}
+OUT=/verif/seeded/$SID; mkdir -p $OUT
 cd $WT || exit 3
 git diff -- src > $OUT/patch.diff
 cp demo_$P.py $OUT/ 2>/dev/null; cp MUTANT.md $OUT/agent_notes.md 2>/dev/null
